@@ -227,6 +227,12 @@ class ProjectResolver:
             # `from b import g as y`): lian files imports per (unit, original name)
             froms = [(n, extra) for (ln, n, role, ps, extra) in orc.occs
                      if role == "def" and isinstance(extra, tuple) and extra and extra[0] == "from"]
+            # `import a.b as c` is lowered by lian like `from a import b as c` (fix 352ede2): original name b of module a
+            for (ln, n, role, ps, extra) in orc.occs:
+                if role == "def" and isinstance(extra, tuple) and extra and extra[0] == "import" and len(extra) > 1 \
+                        and isinstance(extra[1], str) and "." in extra[1] and n != extra[1].split(".")[0]:
+                    parent, leaf = extra[1].rsplit(".", 1)
+                    froms.append((n, ("from", parent, leaf, 0)))
             mine_orig = {(extra[2], extra[1], extra[3]) for n, extra in froms if n == name}
             if any(extra[2] in {o for o, _, _ in mine_orig} and (extra[2], extra[1], extra[3]) not in mine_orig
                    for n, extra in froms):
